@@ -122,7 +122,7 @@ func c01Hostile(c *mc.Ctx) {
 // long cells: at, just under and over the 65535-byte limit, and rows crossing 64 KiB
 func c01Long(c *mc.Ctx) {
 	lens := []int{65534, 65535, 65536, 65537, 70000, 131072}
-	kind := c.Choose(2)
+	kind := c.Choose(3)
 	k := &ingestCfg{cols: []string{"a", "b", "c", "d"}}
 	k.pk = [][]int{{0}, {}, {3}}[c.Choose(3)]
 	expectErr := false
@@ -131,6 +131,12 @@ func c01Long(c *mc.Ctx) {
 		pos := c.Choose(4)
 		k.rows = [][]string{{"k1", "x", "y", "z"}, {"k2", "x", "y", "z"}}
 		k.rows[c.Choose(2)][pos] = strings.Repeat("L", l)
+		expectErr = l > 65535
+	} else if kind == 2 {
+		// a header cell (column name) at and over the limit
+		l := mc.Pick(c, []int{65535, 65536, 70000})
+		k.cols = []string{"a", "b", "c", strings.Repeat("H", l)}
+		k.rows = [][]string{{"k1", "x", "y", "z"}, {"k2", "x", "y", "z"}}
 		expectErr = l > 65535
 	} else {
 		// two 40000-byte cells (each legal) followed / preceded by a short cell
